@@ -6,8 +6,9 @@ Line protocol for `BB.SectorWriter` (the sector-sharing block writer):
 * `sw-init S`           new block with sector size `S`                       → `ok`
 * `sw-put n`            `Put(n)`: new writer                                 → `<writer index> <offset>`
 * `sw-write i hex`      one `Write` call of writer `i` with these bytes      → device image
-* `sw-writeflush i hex` the last `Write` call of writer `i`, then `flush()`   → device image
+* `sw-writeflush i hex` the last `Write` call of writer `i`, then `flush()`   → device image and the `WriteAt` calls of this step
 * `sw-flush i`          `flush()` of writer `i`                              → device image
+* `sw-space c n`        `HasSpace(n)` for a block of `c` sectors                 → `true` / `false`
 * `sw-dev n`            first `n` bytes of the device                        → hex
 
 The driver does not go through `Sys.step` (which draws the bytes from a fixed object list): the harness supplies
@@ -24,6 +25,11 @@ structure S where
   top : Nat := 0            -- bytes allocated so far
 
 def image (s : S) : String := bytesHex ((List.range s.top).map (devByte s.m))
+
+/-- Device image plus the `WriteAt` calls (first sector:sector count) made since `before`, oldest first. -/
+def report (before : S) (s : S) : String :=
+  let fresh := (s.m.wlog.take (s.m.wlog.length - before.m.wlog.length)).reverse
+  image s ++ " w=" ++ (if fresh.isEmpty then "-" else ",".intercalate (fresh.map fun (a, n) => s!"{a}:{n}"))
 
 def step (s : S) (line : String) : S × String :=
   match words line with
@@ -44,7 +50,7 @@ def step (s : S) (line : String) : S × String :=
       | some w =>
         let (m', w') := w.write s.m bs
         let s' := { s with m := m', ws := s.ws.set! i w' }
-        (s', image s')
+        (s', report s s')
       | none => (s, "bad-op")
     | _, _ => (s, "bad-op")
   | ["sw-writeflush", i, hex] =>
@@ -54,16 +60,20 @@ def step (s : S) (line : String) : S × String :=
       | some w =>
         let (m', w') := w.write s.m bs
         let s' := { s with m := w'.flush m', ws := s.ws.set! i w' }
-        (s', image s')
+        (s', report s s')
       | none => (s, "bad-op")
     | _, _ => (s, "bad-op")
   | ["sw-flush", i] =>
     match nat? i with
     | some i =>
       match s.ws[i]? with
-      | some w => let s' := { s with m := w.flush s.m }; (s', image s')
+      | some w => let s' := { s with m := w.flush s.m }; (s', report s s')
       | none => (s, "bad-op")
     | none => (s, "bad-op")
+  | ["sw-space", sectors, n] =>
+    match nat? sectors, nat? n with
+    | some c, some k => (s, toString (hasSpace s.m.S c s.a k))
+    | _, _ => (s, "bad-op")
   | ["sw-dev", n] =>
     match nat? n with
     | some k => (s, bytesHex ((List.range k).map (devByte s.m)))
